@@ -11,7 +11,7 @@ min/maxEigenVector, procrustes recovery and local optimality (harness/corr/c12_r
 import os, re, collections
 import lib, troute
 
-LEVEL = "partial"
+LEVEL = "proof"
 MODULE = "ImathVerif.Props.C12"
 MODULE_FULL = "ImathVerif.Props.C12Recompose"
 IDX_SHRT = os.path.join(lib.VERIF, "harness", "sym", "index_shrt.txt")
@@ -37,6 +37,14 @@ REQUIRED = [
     "jacobiSVD_forcePositiveDeterminant", "maxEigenVector_index3", "minEigenVector_index3", "trigSpec_real"]
 REQUIRED_FULL = ["M33_sansScaling_recompose", "M33_removeScaling_recompose", "M33_sansScaling_witness", "M33_removeScaling_witness"]
 FULL_KEYS = ["M33_sansScaling_recompose", "M33_removeScaling_recompose"]
+# 3-D recomposition at full strength: the Euler round trip setEulerAngles (extractEulerXYZ R) = R for EVERY rotation matrix
+# (gimbal lock included) is proved in Props/C12Link.lean, which closes M44_extractSHRT/sansScaling_recompose_partial
+MODULE_LINK = "ImathVerif.Props.C12Link"
+REQUIRED_LINK = ["extractEulerXYZ_unit", "extractEulerXYZ_copies_agree", "setEulerAngles_toMat", "rotH3_extractEulerXYZ",
+                 "M44_extractSHRT_recompose", "M44_sansScaling_recompose", "M44_removeScaling_recompose",
+                 "sqrtSpec_real", "eulerTrigSpec_real", "rotH3_extractEulerXYZ_real", "M44_extractSHRT_recompose_real",
+                 "M44_sansScaling_recompose_real", "eulerRoundTrip_principal_of_C11", "rotation_is_setEulerAngles",
+                 "ear44_W", "extractSHRT_W"]
 
 # witness of the (repaired, /repo ec5bcdd) 2-D sansScaling/removeScaling defect: rotation by the 3-4-5 angle (cos 4/5, sin 3/5), translation (3, 4)
 W345 = ["0.8", "0.6", "0", "-0.6", "0.8", "0", "3", "4", "1"]
@@ -280,7 +288,9 @@ def run(chk):
                        "the 2x2 block, and the parameters the SVD code computes with tolerance 0 are proved to be such; the effect of a "
                        "positive tolerance, rounding, convergence of the sweeps, accuracy, the order of the four singular values of the "
                        "4x4 version and procrustes optimality are MEASURED (partial)",
-                       "3-D extractSHRT/sansScaling recomposition uses the Euler round trip of property C11 as a hypothesis",
+                       "3-D extractSHRT/sansScaling/removeScaling recomposition: FULL (Props/C12Link.lean proves the Euler round trip "
+                       "setEulerAngles (extractEulerXYZ R) = R for every rotation matrix, gimbal lock included, over any ordered field with "
+                       "sqrt/sin/cos/atan2 satisfying SqrtSpec/EulerTrigSpec, which Real.sqrt/sin/cos and atan2 y x = arg (x+iy) do)",
                        "computeRSMatrix: tail algebra and degenerate-A arm proved; factor selection checked bitwise on the real code"]
     chk.rule = ("correspondence: affine matrices S*H*R*T with graded conditioning 10^-12..10^12, negative scales/reflections, zero / dependent "
                 "rows (guards), tiny rows (lengthTiny, denormals), integer and non-affine matrices; Jacobi: random / integer / symmetric / "
@@ -318,6 +328,7 @@ def run(chk):
     chk.check_theorems(MODULE, required=REQUIRED, search=lambda n: generic_search(chk, state, n))
     chk.check_theorems(MODULE_FULL, required=REQUIRED_FULL,
                        search=lambda n: defect_search(chk, bins.get("sym_c12"), n) if bins.get("sym_c12") else None)
+    chk.check_theorems(MODULE_LINK, required=REQUIRED_LINK, search=lambda n: generic_search(chk, state, n))
     # removeScaling (Matrix33) returns sansScaling's matrix (theorem M33_removeScaling): its recomposition theorem is derived from
     # M33_sansScaling_recompose, so it inherits the failure; report it under its own key with its own replay on the real code
     if any(f["key"] == "theorem:M33_sansScaling_recompose" for f in chk.failures) and bins.get("sym_c12") and \
